@@ -40,6 +40,9 @@ EPS_REL = {"f32": [1e2, 1.0, 1e-2, 1e-4, 1e-6], "f64": [1e2, 1.0, 1e-2, 1e-6, 1e
 EPS_BELOW = {"f32": [1e-12, 1e-18], "f64": [1e-24]}
 SOLVERS = ["eigen", "eigen_stab", "newton6", "newton10", "ho2", "ho3"]
 ROOTS = [Fraction(1), Fraction(2), Fraction(4), Fraction(8), Fraction(3, 2), Fraction(4, 3), Fraction(8, 3)]
+# what Fraction(root / exponent_multiplier) produces for multipliers that are not dyadic: huge numerator/denominator.
+# Only the direct solvers are run on these (the coupled iterations would need matrix powers with p ~ 1e15).
+BIG_ROOTS = [Fraction(2 / 1.37), Fraction(4 / 1.821), Fraction(2 / 0.7)]
 
 
 def bounds(tier):
@@ -130,13 +133,16 @@ def check_input(torch, c, stats):
     u = common.UNIT[dtype]
     eps = c["eps_rel"] * c["scale"]
     below = bool(c.get("below"))
-    for r in ROOTS:
+    A_before = A.clone()
+    for r in ROOTS + (BIG_ROOTS if (c["n"] <= 5 and not below) else []):
         Xs, w = oracle(A, Q, lam, eps, r, dtype, closed=below)
         kappa = float(w.max() / w.min())
         nx = np.linalg.norm(Xs)
         expo_term = (1.0 / float(r)) * U32 * float(np.max(np.abs(np.log(w))))
         for s in SOLVERS:
             if s.startswith("newton") and r.denominator != 1:
+                continue
+            if r.denominator > 1000 and not s.startswith("eigen"):
                 continue
             if below and s.startswith("newton"):
                 continue
@@ -165,6 +171,9 @@ def check_input(torch, c, stats):
                 out.append((case, f"raised {type(e).__name__}: {str(e)[:100]}"))
                 continue
             stats["calls"] = stats.get("calls", 0) + 1
+            if not torch.equal(A, A_before):
+                out.append((case, "the routine modified its input matrix in place"))
+                A.copy_(A_before)
             if s.startswith("ho") and n > 1 and r.denominator == 1:
                 # the guard, recomputed exactly as specified in the working precision: whenever the routine returns,
                 # |A_eps X^p - I|_max <= 0.1 (a NaN residual is not <= 0.1)
